@@ -47,7 +47,7 @@ fn main() {
         let has_par = g.rels.iter().any(|k| mult(g, k) >= 2);
         let pred = |r: &mut Rng, vars: Vec<(usize, Ty, bool)>| -> Option<Ex> {
             if r.chance(1, 2) { return None; }
-            let sc = Scope { vars, params: params_v.clone() };
+            let sc = Scope { vars, params: params_v.clone(), kvals: graph_values(g) };
             let depth = 1 + r.below(2) as u32;
             let mut eg = ExGen::new(r, &sc, false);
             Some(eg.pred(depth))
@@ -90,7 +90,6 @@ fn main() {
                 let (skip, limit) = match r.below(4) { 0 => (None, None), 1 => (Some(r.below(3) as usize), None), 2 => (None, Some(1 + r.below(3) as usize)), _ => (Some(1), Some(2)) };
                 let distinct = idx == 1 || r.chance(2, 3);
                 let order = if r.chance(1, 2) { ordered = true; vec![(Ex::Var(20), r.chance(1, 2))] } else { vec![] };
-                if distinct && (skip.is_some() || limit.is_some()) { class_pred = Some("K-C11-distinct-window"); }
                 ("distinct-window", Query::Single(vec![Clause::Unwind(Ex::List(vals), 0), Clause::Return(Proj { items: vec![(20, Ex::Var(0))], distinct, order, skip, limit })]))
             }
             _ => {
